@@ -93,8 +93,9 @@ def main():
                 print("  replay : %s" % out[-600:])
                 print("VIOLATION property=%s replay=%s" % (prop, path))
     wall = time.time() - t0
-    write_evidence(prop, tier, seed, results, wall, violations,
-                   extra_assumptions=getattr(mod, "ASSUMPTIONS", ()), known_lines=known_lines)
+    if not a.only:   # a filtered (debugging) run covers part of the obligations: it never replaces the evidence file
+        write_evidence(prop, tier, seed, results, wall, violations,
+                       extra_assumptions=getattr(mod, "ASSUMPTIONS", ()), known_lines=known_lines)
     held = sum(1 for r in results if r.verdict == HOLDS)
     print("[%s] tier=%s obligations=%d held=%d violations=%d inconclusive=%d spurious=%d wall=%.1fs" % (
         prop, tier, len(results), held, violations, inconclusive, spurious, wall))
